@@ -1,5 +1,6 @@
 """C07 zigzag persistence: births_ <-> birthOrdering_ bookkeeping as a counting path rule (DESIGN 4/C07)."""
 from gsa import facts, ir, paths
+from rules import findrule, c09
 from gsa.facts import Unit, rel, AnalysisBroken
 from gsa.report import Check
 
@@ -253,5 +254,15 @@ def run(tier, replay=None):
     # is kept (rule shared with C05)
     from rules import c05
     c05.run_dimension_overwrite(chk, F, min_count=1)
+    findrule.run(chk, F, ('zigzag_persistence.h', 'filtered_zigzag_persistence.h'), {
+        'Zigzag_persistence::_process_backward_arrow|births_':
+            'every chain of F (unpaired column) has an entry in births_: the creation / registration lock-step rule '
+            'above (E2n) keeps births_ on exactly the unpaired chains, and this arm is taken for an unpaired column'},
+        'C07', 1)
+    _by = {}
+    for _f in F.functions:
+        if _f.get('inst') in (0, 2) and _f.get('body') is not None and _f['file'].startswith(facts.REPO):
+            _by.setdefault(_f.get('cls') or _f.get('clsname') or '-', []).append(_f)
+    c09.run_assert_purity(chk, F, by=_by, min_count=3)
     chk.assumptions += ['clang 14 parser', 'births_[k] = v creates a key, births_.at(k) = v updates one']
     return chk
